@@ -13,7 +13,7 @@ PROPS = {
     "C02": dict(
         title="tree constraints (eq/diseq programs)",
         props_module="PvModel.Props.C02",
-        props_extra=["PvModel.Props.C02Program", "PvModel.Props.C02Decide", "PvModel.Props.C02Rel", "PvModel.Props.C02Answer", "PvModel.Props.C02Query"],
+        props_extra=["PvModel.Props.C02Program", "PvModel.Props.C02Decide", "PvModel.Props.C02Rel", "PvModel.Props.C02Answer", "PvModel.Props.C02Query", "PvModel.Props.C02QueryRel"],
         rule="pure tree programs (1-6 atoms ==/!= over <=2 query + <=3 hidden variables, nested conde/fresh, compounds), each run as written and "
              "under random permutations of every conjunction; targets: subsuming pairs, disequalities simplified/violated by later equalities; "
              "observable: canonical answer terms + truth table of the reported constraints over an 8-element universe; non-trivial = an answer "
@@ -138,7 +138,7 @@ PROPS = {
              "model; non-trivial = >=2 answers; distinct = distinct case lines",
         trusted=SEARCH_TRUST,
         assumptions=[],
-        open=["reordering inside programs with COMMITTED CHOICE is checked by the oracle only (programs with relation calls: C04_rel_equiv / C04_rel_conj_comm / C04_rel_alt_comm)", "FD answer MULTISETS: per path, C04_fd_answer_values_perm (with C17_answer_values) shows the answer values after labelling + the onceo over the hidden variables are permutations of each other for two states describing the same valuations; the sum over the paths of a program and reification: PROVED (Props/C17Query.lean: C17_query_program, C17_query_count, C04_fd_query_reorder for reordered clauses); reordered CONJUNCTS of FD programs at the level of the whole query are carried by the correspondence"],
+        open=["reordering inside programs with COMMITTED CHOICE is checked by the oracle only (programs with relation calls: C04_rel_equiv / C04_rel_conj_comm / C04_rel_alt_comm)", "FD answer MULTISETS: per path, C04_fd_answer_values_perm (with C17_answer_values) shows the answer values after labelling + the onceo over the hidden variables are permutations of each other for two states describing the same valuations; the sum over the paths of a program and reification: PROVED (Props/C17Query.lean: C17_query_program, C17_query_count, C04_fd_query_reorder for reordered clauses); for ==/!= bodies ANY reorder of conjuncts and clauses keeps the instances of the reported answers of the whole query (C04_query_reorder_meaning, Props/C04Query.lean); reordered CONJUNCTS of FD programs at the level of the whole query are carried by the correspondence"],
     ),
     "C09": dict(
         title="query iteration: lazy, fused, deterministic",
@@ -181,7 +181,7 @@ PROPS = {
     "C24": dict(
         title="library list relations (member, member1, append, rember, permute, distinct, cons, first, rest, empty)",
         props_module="PvModel.Props.C24",
-        props_extra=["PvModel.Props.C24Sem", "PvModel.Props.C24Count", "PvModel.Props.C24First"],
+        props_extra=["PvModel.Props.C24Sem", "PvModel.Props.C24Count", "PvModel.Props.C24First", "PvModel.Props.C24Query"],
         rule="every relation in random argument modes (each argument a fresh variable, a list with a variable element, or ground; lists of length "
              "<=4 over {1,2,3} with repeats); finite modes: the ground instances of the answers over a finite universe (through the reported "
              "constraints) are exactly the ground tuples in the relation, member yields one answer per matching position and member1 one per "
